@@ -4,6 +4,8 @@ CONSTANTS
   MA = 4
   LB = 9
   MaxCep = 10
+  CapFix = TRUE
+  MaxUtt = 1
   StartedFix = TRUE
 INVARIANTS NoRingOverrun SearchedAreWindows CompleteAtEnd
 VIEW View
